@@ -236,7 +236,7 @@ func c02Methods(c *run.Ctx) {
 		sval := func() string {
 			return []string{"", "bob", "with space", "quote\"d", "back\\slash", "üñí", "😀", "new\nline", "tab\t"}[r.Intn(9)]
 		}
-		kind := r.Intn(7)
+		kind := r.Intn(8)
 		var field, op string
 		var args []argSpec
 		var expect func(a map[string]interface{}) interface{}
@@ -275,6 +275,12 @@ func c02Methods(c *run.Ctx) {
 			field, op = "bump", "mutation"
 			args = []argSpec{{name: "by", typ: "Int", val: ival() % 100000}}
 			expect = func(a map[string]interface{}) interface{} { return zr.Mutation.Bump(int32(a["by"].(int))) }
+		case 6:
+			field, op = "find", "mutation"
+			args = []argSpec{{name: "artist", typ: "String", val: sval()}, {name: "album", typ: "String", val: sval()}, {name: "title", typ: "String", val: sval()}, {name: "year", typ: "Int", val: ival() % 3000}}
+			expect = func(a map[string]interface{}) interface{} {
+				return zr.Mutation.FindTrack(a["title"].(string), a["year"].(int), a["artist"].(string), a["album"].(string))
+			}
 		default:
 			field, op = "renamed", "mutation"
 			expect = func(a map[string]interface{}) interface{} { return zr.Mutation.OtherName() }
